@@ -1,4 +1,5 @@
 import FparserModel.Proofs.IoStmtLayoutWrite
+import FparserModel.Proofs.IoStmtHollerith
 /-!
 The FORMAT classes: `Format_Item` (F2003 / F2008), `Control_Edit_Desc`, `Format_Item_List`.
 -/
@@ -272,7 +273,7 @@ theorem pyInt_none (m : Str) :
     exact h
 
 theorem formatItemListLoop_raises : ∀ (fuel : Nat) (cur : Str) (e : Exc),
-    Slot.raise e ∈ formatItemListLoop fuel cur → e = .valueError ∨ e = .keyError
+    Slot.raise e ∈ formatItemListLoop fuel cur → e = .keyError
   | 0, cur, e, h => by simp [formatItemListLoop] at h
   | fuel+1, cur, e, h => by
     unfold formatItemListLoop at h
@@ -290,9 +291,11 @@ theorem formatItemListLoop_raises : ∀ (fuel : Nat) (cur : Str) (e : Exc),
       · cases h
       · exact formatItemListLoop_raises fuel _ e h
     split at h
-    · split at h
-      · simp only [List.mem_singleton, Slot.raise.injEq] at h
-        exact .inl h
+    · rename_i m hm
+      split at h
+      · rename_i hn
+        obtain ⟨n, hn'⟩ := hollerith_count_int hm
+        rw [hn'] at hn; cases hn
       · split at h
         · simp at h
         rcases List.mem_cons.1 h with h | h
@@ -306,17 +309,18 @@ theorem formatItemListLoop_raises : ∀ (fuel : Nat) (cur : Str) (e : Exc),
         · simp at h
     · split at h
       · simp only [List.mem_singleton, Slot.raise.injEq] at h
-        exact .inr h
+        exact h
       · split at h
         · rcases List.mem_cons.1 h with h | h
           · cases h
           · exact formatItemListLoop_raises fuel _ e h
         · simp at h
 
-/-- **Format_Item_List.match**: the only exceptions of its own are the `ValueError` of
-    `int(found.group()[:-1])` and the `KeyError` of `string_replace_map` — no `IndexError` -/
+/-- **Format_Item_List.match** (after the repair fa6d1cf of /repo): the only exception of its own is
+    the `KeyError` of `string_replace_map` — no `IndexError`, and the `ValueError` of
+    `int(match_str[:-1].replace(" ", ""))` is unreachable (`hollerith_count_int`) -/
 theorem formatItemList_raises {s : Str} {slots : List Slot} (h : planFormatItemList s = .ok slots) :
-    ∀ e, Slot.raise e ∈ slots → e = .valueError ∨ e = .keyError := by
+    ∀ e, Slot.raise e ∈ slots → e = .keyError := by
   unfold planFormatItemList at h
   split at h
   · cases h
@@ -326,15 +330,11 @@ theorem formatItemList_raises {s : Str} {slots : List Slot} (h : planFormatItemL
   cases h
   exact fun e he => formatItemListLoop_raises _ _ e he
 
-/-- FINDING (C06, /repo): the `ValueError` is REACHABLE — a Hollerith prefix with an inner blank,
-    `int("1 2")` -/
-theorem formatItemList_valueError_witness :
-    planFormatItemList "1 2habc".toList = .ok [.raise .valueError] := by decide +kernel
-
-/-- … and it escapes from `Format_Item_List.match` whatever the children do -/
-theorem formatItemList_valueError_escapes (o : Oracle Node) :
-    (planFormatItemList "1 2habc".toList).bind (runSlots o) = .raises .valueError := by
-  rw [formatItemList_valueError_witness]; rfl
+/-- REGRESSION (C06): the inputs on which `int("1 2")` raised `ValueError` before fa6d1cf are now
+    an ordinary "no match" whatever the children do -/
+theorem formatItemList_hollerith_blank_no_escape (o : Oracle Node) :
+    (planFormatItemList "1 2habc".toList).bind (runSlots o) = .noMatch := by
+  rw [formatItemList_hollerith_blank_no_raise.1]; rfl
 
 /-! ## 4. `Control_Edit_Desc` -/
 
@@ -704,7 +704,7 @@ def loopOK : Nat → Str → Bool
         loopOK fuel (skipComma (lstrip (cur.drop (fi.2 + 1))))
       else match hollerithPrefix cur with
       | some m =>
-        (match pyInt m.dropLast with
+        (match pyInt (Combi.noSpaces m.dropLast) with
           | none => true
           | some n =>
             let numChars := m.length + n
@@ -897,10 +897,10 @@ theorem formatItemList_optional_comma_witness :
       .ok [.child C.Format_Item "i3".toList, .child C.Control_Edit_Desc "/".toList,
            .child C.Format_Item "i4".toList] := by decide +kernel
 
-/-- under the tokeniser hypothesis of every round the `KeyError` is out: the ONLY exception of
-    `Format_Item_List.match` itself is the `ValueError` of the Hollerith count -/
+/-- under the tokeniser hypothesis of every round the `KeyError` is out too:
+    `Format_Item_List.match` raises NOTHING of its own (fa6d1cf removed the `ValueError`) -/
 theorem formatItemListLoop_raises_ok : ∀ (fuel : Nat) (cur : Str) (e : Exc),
-    loopOK fuel cur = true → Slot.raise e ∈ formatItemListLoop fuel cur → e = .valueError
+    loopOK fuel cur = true → Slot.raise e ∈ formatItemListLoop fuel cur → False
   | 0, cur, e, _, h => by simp [formatItemListLoop] at h
   | fuel+1, cur, e, hok, h => by
     unfold formatItemListLoop at h
@@ -934,7 +934,9 @@ theorem formatItemListLoop_raises_ok : ∀ (fuel : Nat) (cur : Str) (e : Exc),
     · rename_i m hm
       simp only [hm] at hok
       split at h
-      · simpa using h
+      · rename_i hn0
+        obtain ⟨n0, hn0'⟩ := hollerith_count_int hm
+        rw [hn0'] at hn0; cases hn0
       rename_i n hn
       simp only [hn] at hok
       try dsimp only at h
@@ -976,7 +978,7 @@ theorem formatItemListLoop_raises_ok : ∀ (fuel : Nat) (cur : Str) (e : Exc),
 
 theorem formatItemList_raises_ok {s : Str} {slots : List Slot} (h : planFormatItemList s = .ok slots)
     (hok : loopOK (2 * (lstrip s).length + 2) (lstrip s) = true) :
-    ∀ e, Slot.raise e ∈ slots → e = .valueError := by
+    ∀ e, Slot.raise e ∉ slots := by
   unfold planFormatItemList at h
   split at h
   · cases h
@@ -997,8 +999,8 @@ example : loopOK 30 "i3/2(a4),1x:e10.3".toList = true := by decide +kernel
 #print axioms formatItem_raises
 #print axioms pyInt_none
 #print axioms formatItemList_raises
-#print axioms formatItemList_valueError_witness
-#print axioms formatItemList_valueError_escapes
+#print axioms formatItemList_hollerith_blank_no_escape
+#print axioms hollerith_count_int
 #print axioms controlEditDesc_tostr_match_tokens
 #print axioms formatItem_tostr_match_tokens
 #print axioms formatItemList_raises_ok
